@@ -129,6 +129,8 @@ CHECKS = {
                      "non-trivial = the case reached a backend operation / operated on a non-empty registry / switched threads"),
             "assumptions": ASSUME_S + ["sanitizer reports under the thread scheduler are C18's findings and are not counted here; only output differences are"]},
     "C19": {"runs": [
+        {"name": "c19inj", "plan": "c19inj", "srcs": S, "san": "asan"},
+        {"name": "c19sing", "plan": "c19sing", "srcs": S, "san": "asan"},
         {"name": "c19rt", "plan": "c19rt", "srcs": S, "san": "asan", "opts": {"quick": {"ex_n": 10, "st_lens": 2}}},
         {"name": "c19rc", "plan": "c19rc", "srcs": S, "san": "asan", "opts": {"quick": {"ex_n": 8, "st_lens": 1, "ex_lens": 2, "max_n": 16}}},
         {"name": "c19sc", "plan": "c19sc", "srcs": S, "san": "asan", "opts": {"quick": {"all_n": 10}}},
